@@ -123,7 +123,7 @@ DET.update({
 DET.update({
  "C09-f": (True,  "C09 quick: action=Receive reader=parseMax st=keyedClear include=1 what=error (size-capped receiver skips the secret toggle on a keyed non-encrypting stream)", ""),
  "C18-f": (True,  "C18 quick: check=server_accepted object=symlinkToDir role=server (os.Stat instead of os.Lstat)", ""),
- "C20-f": (False, "C20 quick (after strengthening; see DESIGN 12.12): failure reply rendered without / with empty ErrorString", "scripted broker's failure reply is a class of renderings (reason naming the broker / empty reason / no ErrorString), selected by the salt"),
+ "C20-f": (False, "C20 quick: invariant=BrokerFailureEndsAttempt mode=standard what=failure_did_not_end_attempt (failure reply without / with empty ErrorString)", "scripted broker's failure reply is a class of renderings (reason naming the broker / empty reason / no ErrorString), selected by the salt"),
  "C01-f": (False, "OPEN (missed by C01 quick): zero-length frame rejected on a keyed stream with crypto mode off", "needs Framing.tla stream state keyed-not-encrypting for empty messages / empty final frames"),
  "C07-f": (False, "OPEN (missed by C07 quick): InvalidateExpired sweeps only routes of sessions it expires itself; routes orphaned by LookupNonExpired survive and a re-import of the same id revives them", "needs SessionRoutes.tla action LazyExpire (id lookup drops the entry) followed by Import of the same id under another tag"),
  "C10-f": (False, "OPEN (missed by C10 quick): per-command config that already carries an ECDH public key keeps it, both ends derive different keys", "needs policy source hook with a previously used config (stale ECDHPublicKey) in Negotiation replay"),
